@@ -36,13 +36,13 @@ Record lrec_full := mkF {
                             (always empty in records written by AppendLogRecord) *)
 }.
 
-Definition two31 : Z := 2147483648.
-Definition two32 : Z := 4294967296.
-Definition two32N : N := 4294967296.
+Definition pow2_31 : Z := 2147483648.
+Definition pow2_32 : Z := 4294967296.
+Definition pow2_32N : N := 4294967296.
 
 (** int32 <-> the unsigned word stored in the file *)
-Definition u32_of_s (z : Z) : N := Z.to_N (z mod two32).
-Definition s_of_u32 (n : N) : Z := if n <? 2147483648 then Z.of_N n else (Z.of_N n - two32)%Z.
+Definition u32_of_s (z : Z) : N := Z.to_N (z mod pow2_32).
+Definition s_of_u32 (n : N) : Z := if n <? 2147483648 then Z.of_N n else (Z.of_N n - pow2_32)%Z.
 
 (** * Writer *)
 
@@ -188,17 +188,17 @@ Definition shape_matches (ty : N) (b : fbody) : Prop :=
 Definition body_words_ok (b : fbody) : Prop :=
   match b with
   | FNone => True
-  | FTuple p s _ | FUpdate p s _ _ | FNewPage p s => p < two32N /\ s < two32N
-  | FPage p => p < two32N
+  | FTuple p s _ | FUpdate p s _ _ | FNewPage p s => p < pow2_32N /\ s < pow2_32N
+  | FPage p => p < pow2_32N
   end.
 
-Definition s32_ok (z : Z) : Prop := (- two31 <= z < two31)%Z.
+Definition s32_ok (z : Z) : Prop := (- pow2_31 <= z < pow2_31)%Z.
 
 (** field ranges; the body has the shape of the record type; the size field counts the
     whole record and fits in 32 bits (so every tuple length does, too) *)
 Definition wf_rec (r : lrec_full) : Prop :=
   s32_ok (f_lsn r) /\ s32_ok (f_txn r) /\ s32_ok (f_prev r) /\
-  f_type r < two32N /\ f_size r < two32N /\
+  f_type r < pow2_32N /\ f_size r < pow2_32N /\
   shape_matches (f_type r) (f_body r) /\ body_words_ok (f_body r) /\
   f_size r = log_header_size + lenN (ser_body (f_body r)) + lenN (f_pad r).
 
